@@ -237,6 +237,8 @@ def purity_clause(model, rep, funcs):
         MB = Matcher(f)
         okimg = MB.all_of(["$img = _utils.bin_image(self.image, binsize=binsize)", "$out = self.replace(...)", "$out._image = $img", "return $out"])[0] or \
             MB.all_of(["for $id, $image in self._images.items():\n    ...", "$b = _utils.bin_image($image, binsize=binsize)", "$imgs[$id] = $b",
+                       "$out = self.replace(...)", "$out._images = $imgs", "return $out"])[0] or \
+            MB.all_of(["$imgs = {$id: _utils.bin_image($image, binsize=binsize) for $id, $image in self._images.items()}",
                        "$out = self.replace(...)", "$out._images = $imgs", "return $out"])[0]
         rep.ob("SLOT", a, "the result's image is the block-summed image (bin_image of this loader's image with the same binsize)", okimg and "bin_image(" in s and "binsize=binsize" in s,
                "", node=f.node, fn=f, clause="purity", stmt=f"def binning image ({a})")
